@@ -268,6 +268,10 @@ impl<S: Syntax, D> SyntaxToken<S, D> {
             }
         }
 
+        if other.green().text_key().is_some() {
+            return false; // a kind with static text cannot be equal to one with non-static text
+        }
+
         debug_assert!(self.static_text().is_some());
         debug_assert!(other.static_text().is_some());
         self.syntax_kind() == other.syntax_kind()
